@@ -85,6 +85,13 @@ def run(ctx):
     sk = [c for _, c in M.calls(body) if M.callee_name(c).endswith("<impl [T]>::sort_by_key") or M.callee_name(c).endswith("sort_by_key")]
     vty = [t for t in body["locals"] if t.startswith("(usize, core::option::Option<ruma_common::time::MilliSecondsSinceUnixEpoch>, &")]
     ctx.check(len(sk) == 1 and bool(vty), "C06.orders", "C06.orders:mainline-sort", w.where(f), bad_msg="mainline_sort does not sort_by_key on the (usize, Option<ts>, &Id) tuple")
+    # the key of every sorted element is that tuple itself: an optional key (`order_map.get(id)` without the unwrap) makes all elements without an
+    # entry compare equal, and a stable sort then leaves them in the hash order they arrived in
+    kty = [a for c in sk for a in (c.get("fnargs") or [])[1:2]]
+    ctx.check(len(kty) == 1 and re.match(r"^&?\(usize, core::option::Option<ruma_common::time::MilliSecondsSinceUnixEpoch>, &", kty[0]) is not None,
+              "C06.orders", "C06.orders:mainline-sort:total-key", w.where(f),
+              bad_msg=f"the sort key of mainline_sort is `{kty[0] if kty else '?'}`, not the (depth, timestamp, id) tuple of the element: elements whose key is absent "
+                      f"tie with each other and keep the iteration order of the HashSet they came from")
     # ... and every successful return goes through that sort (the input comes from a HashSet): the only shortcut is the empty input
     try:
         dxs = D.Dex(w.lookup, adt_discr=w.adt_discr, unroll=1, inline=lambda n: False, effects=lambda n: "sort" in n.rsplit("::", 1)[-1], max_paths=200000)
